@@ -146,7 +146,15 @@ def run(ctx):
     ctx.check(len(sf) == 1 and string_lit(call_args(sf[0])[2]) == b'%Y-%m-%d %H:%M:%S', R, 'format_time|strftime', sf[0] if sf else ft, 'YYYY-MM-DD HH:MM:SS', 'strftime format changed')
     sn = [c for c in walk(fb) if c.get('kind') == 'CallExpr' and call_name(c) == 'snprintf']
     oku = len(sn) == 1 and string_lit(call_args(sn[0])[2]) == b'.%06u' and _fold(call_args(sn[0])[3]) in ('(t %% %d)' % US,) and 'len' in nf(call_args(sn[0])[0])
-    ctx.check(oku, R, 'format_time|microseconds', sn[0] if sn else ft, '".%06u" of t mod 10^6 appended after the date', 'microsecond suffix changed: %s' % (_fold(call_args(sn[0])[3]) if sn else None))
+    if not sn:
+        # appended with string_printf(".%06u", t % 10^6) after the date text
+        from guard import subst_locals
+        sp_ = [c for c in walk(fb) if c.get('kind') == 'CallExpr' and call_name(c) == 'string_printf' and string_lit(call_args(c)[0]) == b'.%06u']
+        if len(sp_) == 1 and sf and sp_[0]['_off'] > sf[0]['_off']:
+            val_ = subst_locals(_fold(call_args(sp_[0])[1]), sp_[0])
+            oku = val_ in ('(t %% %d)' % US,) and strip(containing_statement(sp_[0])).get('kind') == 'CXXOperatorCallExpr' and call_name(strip(containing_statement(sp_[0]))) == 'operator+='
+            sn = sp_
+    ctx.check(oku, R, 'format_time|microseconds', sn[0] if sn else ft, '".%06u" of t mod 10^6 appended after the date', 'microsecond suffix changed: %s' % (_fold(call_args(sn[0])[-1]) if sn else None))
     a = u.func('phosg::usecs_to_timeval')[0]
     b = u.func('phosg::timeval_to_usecs')[0]
     aa = sorted(_fold(x['inner'][1]) for x in walk(body_of(a)) if x.get('kind') == 'BinaryOperator' and x.get('opcode') == '=')
@@ -197,20 +205,30 @@ def run(ctx):
             ctx.check(div == want_div and thr == want_thr and okform and num == 'size', R, 'format_size|include_bytes=%s|row-%s' % (flag, L), fsz, '%sB: size < 1024^%d, divided by 1024^%d' % (L, k + 2, k + 1),
                       'row %sB: divisor %s (expected %d), threshold %s (expected %s)%s' % (L, div, want_div, thr, want_thr, '' if okform else ', wrong text form'))
     ctx.check([(g[0], g[1], g[2]) for g in rows[True]] == [(g[0], g[1], g[2]) for g in rows[False]], R, 'format_size|siblings-agree', fsz, 'both text forms use the same ladder', 'the two text forms of format_size use different ladders')
+    # the unit letter table, by folding parse_size on "1<c>" for every possible unit character c
+    # (exhaustive over the character; nothing is run): K/k..E/e scale by 1024^1..1024^6, every other
+    # character leaves the scale at 1
+    from peval import PEval, Lit, Undecided, Fault
+    PEz = PEval([us])
     table = {}
-    for x in walk(body_of(psz)):
-        if x.get('kind') == 'IfStmt':
-            cond, then, els = if_parts(x)
-            chars = set()
-            for y in walk(cond):
-                r = relation(y, True)
-                if r and r[1] == '==' and nf(r[0]) == '*str' and int_value(r[2]) is not None and chr(int_value(r[2])).isalpha():
-                    chars.add(chr(int_value(r[2])))
-            sc = [int_value(a['inner'][1]) for a in walk(then) if a.get('kind') == 'BinaryOperator' and a.get('opcode') == '=' and nf(a['inner'][0]) == 'unit_scale'] if then is not None else []
-            if chars and sc and enclosing(sc and x, ('IfStmt',)) is not None or (chars and sc):
-                table[''.join(sorted(chars))] = sc[0]
-    want_t = {''.join(sorted([L, L.lower()])): 1024 ** (k + 1) for k, L in enumerate(letters)}
-    ctx.check(table == want_t, R, 'parse_size|letter-table', psz, 'K/k..E/e -> 1024^1..1024^6', 'parse_size letter table is %s' % {k_: v_ for k_, v_ in sorted(table.items())})
+    folded = True
+    for c_ in range(1, 256):
+        if chr(c_).isdigit() or chr(c_) in '. ':
+            continue
+        try:
+            v_ = PEz.call_with(psz, [Lit(b'1' + bytes([c_]) + b'\0')])
+        except (Undecided, Fault) as e_:
+            ctx.undecided(R, 'parse_size|letter-table', psz, 'parse_size cannot be folded on the text "1%s" (%s)' % (chr(c_) if 32 < c_ < 127 else '\\x%02X' % c_, e_))
+            folded = False
+            break
+        if v_ != 1:
+            table[chr(c_)] = v_
+    if folded:
+        want_t = {}
+        for k_, L in enumerate(letters):
+            want_t[L] = want_t[L.lower()] = 1024 ** (k_ + 1)
+        ctx.check(table == want_t, R, 'parse_size|letter-table', psz, 'K/k..E/e -> 1024^1..1024^6, every other unit character -> 1',
+                  'parse_size unit table differs from format_size\'s ladder: %s' % {k_: v_ for k_, v_ in sorted(table.items()) if want_t.get(k_) != v_} or 'missing %s' % sorted(set(want_t) - set(table)))
     rets = [r for r in walk(body_of(psz)) if r.get('kind') == 'ReturnStmt']
     okp = len(rets) == 1
     why = 'return expression not found'
